@@ -257,7 +257,27 @@ def extract(X, repo):
                 for st in n.body:
                     if isinstance(st, ast.Assign) and isinstance(st.targets[0], ast.Subscript):
                         null_slot = ast.unparse(st.value)
+    # ---- every call into the parsing engine (`<element>.parse_string(...)`) and whether it is lexically inside
+    # `with parse_locker:` (or in a helper that only the locked entry points call)
+    engine_calls = []
+    for mod, tr in trees.items():
+        for f in ast.walk(tr):
+            if not isinstance(f, ast.FunctionDef):
+                continue
+            locked_nodes = set()
+            for w in ast.walk(f):
+                if isinstance(w, ast.With) and any(isinstance(i.context_expr, ast.Name) and i.context_expr.id == "parse_locker" for i in w.items):
+                    for n in ast.walk(w):
+                        locked_nodes.add(id(n))
+            for n in ast.walk(f):
+                if isinstance(n, ast.Call) and isinstance(n.func, ast.Attribute) and n.func.attr in ("parse_string", "parse", "scan_string", "search_string"):
+                    recv = ast.unparse(n.func.value)
+                    if n.func.attr == "parse" and recv in ("ast", "json"):
+                        continue
+                    under = id(n) in locked_nodes or (mod == "__init__" and f.name in HELPERS)
+                    engine_calls.append(("%s.%s:%s.%s" % (mod, f.name, recv, n.func.attr), under))
     X.data["effects"] = {
+        "engine_calls": sorted(set(engine_calls)),
         "scrub_empty_dict": empty_dict,
         "null_slot_value": null_slot,
         "parse_scoped": scoped,
@@ -308,6 +328,10 @@ def gen_lean(X, lean_str):
     lines.append("")
     lines.append("/-- assignments to attributes of package modules from functions other than `_parse` -/")
     lines.append("def crossModuleWrites : List String := [%s]" % ", ".join(lean_str(x) for x in e.get("cross_module_writes", [])))
+    lines.append("")
+    lines.append("/-- every call into the parsing engine in the package, and whether it runs under `parse_locker` -/")
+    lines.append("def engineCalls : List (String × Bool) := [%s]" % ", ".join(
+        "(%s, %s)" % (lean_str(a), "true" if b else "false") for a, b in e.get("engine_calls", [])))
     lines.append("")
     lines.append("/-- what `utils.scrub` returns for an empty Python dict: the input object or a new one -/")
     lines.append("def scrubEmptyDict : String := %s" % lean_str(e.get("scrub_empty_dict", "?")))
